@@ -124,6 +124,12 @@ def Lru.put (l : Lru) (item : Bytes) : Lru × Nat × Bool :=
 
 /-! ### encoder -/
 
+/-- the definition record written for `m` under local number `i` (`b[0] |= localMesgNum`) -/
+def defRecord (arch i : Nat) (m : WMsg) : Bytes :=
+  match defBytes arch m with
+  | h :: rest => (h ||| i) :: rest
+  | [] => []
+
 structure EncState where
   lru : Lru
   tsRef : Nat
@@ -140,10 +146,7 @@ def encodeMsg (o : Opts) (s : EncState) (m : WMsg) : EncState × Bytes :=
   let hdr := match off with
     | some t => (0x80 ||| t) ||| ((i <<< 5) % 256)
     | none => i
-  let defOut := match db with
-    | h :: rest => (h ||| i) :: rest
-    | [] => []
-  ({ lru := lru', tsRef := tsRef' }, (if isNew then defOut else []) ++ (hdr :: payload m'))
+  ({ lru := lru', tsRef := tsRef' }, (if isNew then defRecord o.arch i m' else []) ++ (hdr :: payload m'))
 
 def encodeMsgs (o : Opts) : EncState → List WMsg → Bytes
   | _, [] => []
@@ -260,14 +263,19 @@ def takeDevs : List DevDef → Bytes → Except Err (List (DevDef × Bytes) × B
       | .ok (fs, rest) => .ok ((fd, bs.take fd.size) :: fs, rest)
       | .error e => .error e
 
+/-- little-endian value of a byte string (`value |= b[i] << (i*8)`) -/
+def asmLE : Bytes → Nat
+  | [] => 0
+  | b :: bs => b + 256 * asmLE bs
+/-- big-endian value of a byte string -/
+def asmBE (bs : Bytes) : Nat := bs.foldl (fun acc b => acc * 256 + b) 0
+
 /-- how the decoder reads field 253 of a message for timestamp tracking: `none` when the decoded value is
 not a `TypeUint32` (no update), else the new timestamp. `known` = the factory knows field 253 of this
 message (it is then a non-array uint32): the value is the first four bytes, or — size below four — the
 bytes assembled by `convertBytesToValue`. Unknown field: the definition's base type decides. -/
 def tsFromField (known : Bool) (arch : Nat) (fd : FieldDef) (data : Bytes) : Option Nat :=
-  let asm (bs : Bytes) : Nat :=
-    if arch = 0 then (bs.zipIdx.foldl (fun acc (b, i) => acc + b * 256 ^ i) 0)
-    else bs.foldl (fun acc b => acc * 256 + b) 0
+  let asm (bs : Bytes) : Nat := if arch = 0 then asmLE bs else asmBE bs
   if fd.size = 0 then none
   else if known then
     if fd.size < 4 then some (asm data) else some (asm (data.take 4))
@@ -286,6 +294,21 @@ structure DecState where
 def DecState.fresh : DecState := ⟨[], 0, 0⟩
 
 def DecState.lookup (s : DecState) (i : Nat) : Option MesgDef := (s.defs.find? (·.1 == i)).map (·.2)
+
+/-- timestamp tracking in `decodeFields`: every field numbered 253, in order, may set the active timestamp -/
+def trackTs (known : Bool) (arch : Nat) (st : DecState) (fs : List (FieldDef × Bytes)) : DecState :=
+  fs.foldl (fun st (fd, data) =>
+    if fd.num == tsFieldNum then
+      match tsFromField known arch fd data with
+      | some t => { st with timestamp := t, lastOff := t % 32 }
+      | none => st
+    else st) st
+
+/-- header byte of a compressed-timestamp record: local number in bits 5–6, time offset in bits 0–4 -/
+def decompressHdr (s : DecState) (h : Nat) : DecState × Nat :=
+  let off := h &&& 0x1F
+  let t := (s.timestamp + ((off + 32 - s.lastOff) % 32)) % 4294967296
+  ({ s with timestamp := t, lastOff := off }, t)
 
 inductive Item
   | def_ (local_ : Nat) (d : MesgDef)
@@ -325,20 +348,13 @@ def decodeRecord (tsKnown : Nat → Bool) (s : DecState) : Bytes → Except Err 
       | none => .error .defMissing
       | some d =>
         let (s1, ts) := if compressed then
-            let off := h &&& 0x1F
-            let t := (s.timestamp + ((off + 32 - s.lastOff) % 32)) % 4294967296
-            ({ s with timestamp := t, lastOff := off }, some t)
+            let (s', t) := decompressHdr s h
+            (s', some t)
           else (s, none)
         match takeFields d.fields bs with
         | .error e => .error e
         | .ok (fs, bs1) =>
-          -- timestamp tracking: every field numbered 253, in order
-          let s2 := fs.foldl (fun st (fd, data) =>
-            if fd.num == tsFieldNum then
-              match tsFromField (tsKnown d.mesgNum) d.arch fd data with
-              | some t => { st with timestamp := t, lastOff := t % 32 }
-              | none => st
-            else st) s1
+          let s2 := trackTs (tsKnown d.mesgNum) d.arch s1 fs
           match takeDevs d.devs bs1 with
           | .error e => .error e
           | .ok (ds, bs2) =>
